@@ -321,6 +321,15 @@ class SpatialTransform(DeviceProperty, Module, metaclass=ABCMeta):
         # - (N, D, D + 1): Affine transformation, including translation.
         if data.ndim == 3:
             assert self.linear
+            # Transformation is defined with respect to the cube of self.grid(), whereas points
+            # and output vectors are with respect to the cube of the given sampling grid.
+            if grid != self.grid() or grid.align_corners() != self.align_corners():
+                to_axes = Axes.from_grid(grid)
+                pre = grid.transform(to_axes, self.axes(), to_grid=self.grid())
+                post = self.grid().transform(self.axes(), to_axes, to_grid=grid)
+                pre = pre.unsqueeze(0).to(data)
+                post = post.unsqueeze(0).to(data)
+                data = U.homogeneous_matmul(post, data, pre)
             data = U.affine_flow(data, grid)
         # Non-rigid deformation tensor as displacement field with shape (N, D, ..., X)
         else:
